@@ -218,7 +218,7 @@ Qed.
 Lemma dstep_ok s l : dinv s ->
   dinv (fst (dstep s l)) /\ snd (dstep s l) <> EvPanicOp /\ forall j, snd (dstep s l) <> EvRes j RPanic.
 Proof.
-  intros Hi. destruct l as [v|v| | | |i|i|i]; simpl.
+  intros Hi. destruct l as [v|v| | | |i|i|i|v back full|v]; simpl.
   - apply push_ok; assumption.
   - apply push_ok; assumption.
   - apply pop_ok; assumption.
@@ -244,7 +244,18 @@ Proof.
     destruct (drun_iter (sd s) (dits s) i) as [f ev] eqn:E. simpl in *.
     split; [split; [eauto|split; assumption]|]. split; [|exact H2].
     pose proof (drun_iter_ev (sd s) (dits s) i) as H3. rewrite E in H3. exact H3.
+  - apply push_ok. destruct full; [apply pop_ok|]; assumption.
+  - destruct Hi as ((l & Hr) & Hel & Ht).
+    destruct (dclosed (sd s)); simpl; (split; [|split; [discriminate|intros j; discriminate]]).
+    + split; [eauto|split; assumption].
+    + split; [eauto|]. split; [assumption|]. simpl. apply wake_threads with (d := sd s); [apply d_ext_refl|assumption].
 Qed.
+
+(* Force pushes keep the ring well-formed: evicting at one end and inserting at the other (with the insertion
+   point read after the eviction) is a pop followed by a push, each of which preserves `ring`. *)
+Lemma force_push_ring s v back full : dinv s ->
+  exists l, ring (sd (fst (dstep s (LForcePush v back full)))) l.
+Proof. intros Hi. destruct (dstep_ok s (LForcePush v back full) Hi) as ((Hl & _) & _). exact Hl. Qed.
 
 Lemma dreach_inv vars s : dreach vars s -> dinv s.
 Proof. induction 1; [apply dinv0|apply dstep_ok; assumption]. Qed.
@@ -405,7 +416,8 @@ Proof. vm_compute. reflexivity. Qed.
 
 (* ---------------------------------------------------------------- absent removals every cursor stays on the ring *)
 
-Definition is_pop (l : dlabel) : bool := match l with LPopFront | LPopBack => true | _ => false end.
+Definition is_pop (l : dlabel) : bool :=
+  match l with LPopFront | LPopBack => true | LForcePush _ _ full => full | _ => false end.
 
 Inductive dreach_np (vars : list variant) : dstate -> Prop :=
 | dnp0 : dreach_np vars (ds0 vars)
@@ -494,7 +506,7 @@ Proof.
       - destruct (push_front_ring _ _ v Hr) as (d' & Eadd & Hr'). rewrite Eadd. simpl.
         eexists. split; [exact Hr'|]. intros i. unfold live. rewrite dwake_all_eq, cursor_wake.
         destruct (Hl i) as [H|H]; [left; exact H|right; right; exact H]. }
-    destruct lab as [v|v| | | |i|i|i]; try discriminate; simpl.
+    destruct lab as [v|v| | | |i|i|i|v back full|v]; try discriminate; simpl.
     + apply Hpush.
     + apply Hpush.
     + exists l. split; [exact Hr|]. intros i. unfold live. rewrite dwake_all_eq, cursor_wake. apply Hl.
@@ -506,6 +518,9 @@ Proof.
       destruct (drun_iter (sd s) (dits s) i) as [f ev]. simpl in *. split; [exact Hr|].
       intros j. unfold live. destruct (Hc j) as [E|(-> & E)]; [rewrite E; apply Hl|].
       rewrite (get_order _ _ _ _ Hr (Hl i)) in E. apply next_after_in in E. apply order_in in E. exact E.
+    + simpl in Hnp. subst full. apply Hpush.
+    + exists l. destruct (dclosed (sd s)); simpl; (split; [exact Hr|]); [exact Hl|].
+      intros i. unfold live. rewrite dwake_all_eq, cursor_wake. apply Hl.
 Qed.
 
 Lemma np_call_result vars s i : dreach_np vars s -> dipc (dits s i) = DReady ->
